@@ -416,7 +416,8 @@ KeptSnaps(C) == {C.tasks[i].s : i \in {j \in 1..Len(C.tasks) : C.status[j] = "do
 UndoOK(C, P, W) ==
     ChgStatus(C) = "Error" =>
         LET K == KeptSnaps(C) IN
-        /\ \A s \in Snaps \ K : W.inst[s] = P.inst[s] /\ W.rec[s] = P.rec[s]
+        \* (Active is not alias state: a remove failing after clear-snap deliberately leaves the snap unlinked)
+        /\ \A s \in Snaps \ K : W.inst[s] = P.inst[s] /\ [W.rec[s] EXCEPT !.act = FALSE] = [P.rec[s] EXCEPT !.act = FALSE]
         /\ \A n \in Names : W.sys[n] # P.sys[n] => (W.sys[n].s \in K \/ P.sys[n].s \in K)
 
 \* (c) manual aliases survive refreshes and override auto ones; auto aliases follow the snap-declaration across
@@ -570,7 +571,7 @@ MCFlagsPrefer == {"prefer"}
 MCKindsNs    == {"alias", "unalias", "prefer", "install", "remove"}
 MCKindsOp2   == {"alias", "install"}
 MCKindsF2    == {"alias", "remove"}
-MCKindsTiny  == {"alias", "prefer", "disable"}
+MCKindsTiny  == {"alias", "prefer", "install", "refresh"}
 MCKindsRaaux == {"alias", "disable", "prefer", "refresh", "refreshdecl"}
 MCBoth       == {"s1", "s2"}
 MCOne        == {"s1"}
